@@ -220,6 +220,13 @@ func (e *Exec) callSSAFrame(caller *frame, fn *ssa.Function, args []Value, env [
 		}
 	}
 	e.depth++
+	if e.depthFault > 0 && e.depth > e.depthFault {
+		// the harness declared that no terminating run on its inputs nests this deep: unbounded recursion
+		df := e.depthFault
+		e.depthFault = 0
+		e.depth--
+		e.fault("stack overflow: call depth %d exceeded in %s (unbounded recursion)", df, fn)
+	}
 	if e.depth > e.maxDepth {
 		e.abort("limit", "call depth bound %d exceeded in %s", e.maxDepth, fn)
 	}
